@@ -60,7 +60,13 @@ def planOf (mode : Mode) (nAlpha docker : Bool) (s : State) : Plan :=
   if nAlpha then Reconcile s.anc (propagateExecutability s.anc r.1 r.2) r.1 mode
   else Reconcile s.anc r.1 (propagateExecutability s.anc r.1 r.2) mode
 
-/-- One fully applied cycle. -/
+/-- One fully applied cycle. What the next cycle sees on N is a scan of N's disk:
+the (reified) *un-propagated* content with N's plan applied to it — the
+propagated snapshot exists only inside the cycle, as the input of `Reconcile`;
+transitions run against the disk, and a non-preserving filesystem reports no
+executable bits, so the bits of N's tree are meaningless (the theorems hold for
+arbitrary bits on N). Hence N's plan is applied to `r.2`, not to the propagated
+tree. -/
 def cycleStep (mode : Mode) (nAlpha docker : Bool) (s : State) : State :=
   let r := reified nAlpha docker s
   let plan := planOf mode nAlpha docker s
